@@ -304,7 +304,13 @@ where
                                 let tx_permit = match tx.reserve().await {
                                     Ok(tx_permit) => tx_permit,
                                     _ => {
-                                        break Ok(());
+                                        // Deserialization has finished. Wait for the end of the message,
+                                        // so that an item whose transmission was cancelled is not delivered.
+                                        match self.receiver.recv_chunk().await {
+                                            Ok(Some(_)) => continue,
+                                            Ok(None) => break Ok(()),
+                                            Err(err) => break Err(FeedError::RecvChunkError(err)),
+                                        }
                                     }
                                 };
 
